@@ -363,7 +363,7 @@ pub fn check_c20a(c: &Concrete, preamble: &str, std_free: bool) -> LayerA {
     if let ResultObs::Err(es) = &reference.result {
         if reference.reads.len() >= 2 {
             for (path, res) in &reference.reads {
-                if *path == c.main || !matches!(res, crate::exec::ReadRes::Ok { .. }) {
+                if !matches!(res, crate::exec::ReadRes::Ok { .. }) {
                     continue;
                 }
                 let text = match c.files.get(path) {
